@@ -3,7 +3,7 @@
 # runs the quick check of its property (first word of meta.json "property").
 #   tools/run_seeded.sh [ids...]
 cd "$(dirname "$0")/.."
-ids="$@"; [ -z "$ids" ] && ids="$(ls seeded)"
+ids="$@"; [ -z "$ids" ] && ids="$(cd seeded && ls -d */ | tr -d /)"
 for id in $ids; do
   prop="$(python3 -c "import json;print(json.load(open('seeded/$id/meta.json'))['property'].split()[0])")"
   status="$(python3 -c "import json;print(json.load(open('seeded/$id/meta.json')).get('status','detected'))")"
